@@ -4,7 +4,7 @@
    pipelines.  Explored spacings: none, one, two spaces everywhere; every single boundary opened
    alone (others closed) and closed alone (others open); a wide gap at one boundary; seeded
    random spacings; for the lexical pipeline also tab / newline / ideographic space. *)
-EXTENDS EnumFormat, EnumParser, Universe
+EXTENDS Sugar, EnumFormat, EnumParser, Universe
 
 CONSTANTS TIER, SEEDS, SEED
 VARIABLES mode, n, sp, ws
@@ -14,7 +14,11 @@ Reps1 == {RepOf(kd) : kd \in CompoundKinds \cup StatementKinds}
 SmallEnvelope ==
   LET S == Sentences({W("a"), IV("x"), [k |-> "Inheritance", a |-> W("a"), b |-> QV("z")]}, Puncts, StampsFull, {<<>>, <<"1">>, <<"1", "0.9">>})
   IN {AsSentence(s) : s \in S} \cup {AsTask(b, s) : b \in {<<>>, <<"0.5">>, <<"0.5", "0.75", "0.4">>}, s \in Sample(S, 3, SEED)}
-Values == {AsTerm(t) : t \in AtomsU0 \cup Reps1 \cup ImgWithLatePH \cup (IF TIER = "thorough" THEN U1 ELSE Sample(U1, 6, SEED))}
+\* surface sugar takes part too (the formatter never writes it, so only hand-written texts contain these token boundaries)
+SugarVals == {AsTerm(Stmt(kd, a, b)) : kd \in Derived, a \in {W("a"), SE1(IV("x"))}, b \in {W("b")}}
+             \cup {AsTerm([k |-> "ImageExtension", c |-> <<W("a"), PH, W("b"), PH>>]), AsTerm([k |-> "IntervalRaw", raw |-> "007"]),
+                   AsSentence(Sentence(Stmt("EquivalenceRetrospective", W("a"), QV("z")), "Question", [k |-> "Past"], <<>>))}
+Values == {AsTerm(t) : t \in AtomsU0 \cup Reps1 \cup ImgWithLatePH \cup (IF TIER = "thorough" THEN U1 ELSE Sample(U1, 6, SEED))} \cup SugarVals
           \cup (IF TIER = "thorough" THEN EnvelopeQuickSet(0) ELSE SmallEnvelope)
 
 Variants(v) ==
@@ -33,13 +37,13 @@ Next == \/ /\ mode = "seed" /\ mode' = "value" /\ n' \in Part(Values, n, SEEDS) 
         \/ /\ mode = "value" /\ mode' = "lexws" /\ sp' = AllSp(NarseseToks(n), 1) /\ ws' \in (Rng(Cls.unicode_ws) \ {" "}) /\ UNCHANGED n        \* every White_Space character the dump knows
 
 Text == Render(NarseseToks(n), sp)
-SpacingIrrelevant == mode = "case" => Parse(Text) = OkRes(n)
+SpacingIrrelevant == mode = "case" => Parse(Text) = OkRes(DesugarN(n))
 Emit ==
   /\ mode = "case" =>
-       PrintT(<<"CMD", ToJson([op |-> "pipe", fmt |-> FmtName, s |-> Text, expect |-> N2J(n),
+       PrintT(<<"CMD", ToJson([op |-> "pipe", fmt |-> FmtName, s |-> Text, expect |-> N2J(DesugarN(n)),
                                macros |-> (FmtName = "ascii" /\ \A i \in 1..Len(sp) : sp[i] = 1)])>>)
   /\ mode = "lexws" =>
-       PrintT(<<"CMD", ToJson([op |-> "pipe", fmt |-> FmtName, only |-> "lex", expect |-> N2J(n),
+       PrintT(<<"CMD", ToJson([op |-> "pipe", fmt |-> FmtName, only |-> "lex", expect |-> N2J(DesugarN(n)),
                                s |-> [i \in 1..Len(Text) |-> IF Text[i] = " " THEN ws ELSE Text[i]]])>>)
 Spec == Init /\ [][Next]_vars
 =============================================================================
